@@ -147,6 +147,11 @@ func runProgram(r *h.Run, p Program, strict bool, emit bool) []step {
 				// internally inconsistent in the same way: the in-memory back end is not used for the rest of such a program.
 				tainted[i] = true
 			}
+			if !strict && b.name == "mem" && len(p.Calls) > 1 && unconstrained(c, prev[i]) {
+				// any kind-conflict call may leave MemMapFs inconsistent (it registers entries below files / over directories);
+				// such a call is judged on its own, the in-memory back end is not used for the rest of the program
+				tainted[i] = true
+			}
 			if c.FaultAt > 0 && b.name == "mem" && len(p.Calls) > 1 {
 				// An injected I/O error can make Exists() answer false for a directory; Touch / WriteFile then create a file over it,
 				// which leaves afero's MemMapFs internally inconsistent (a later, innocent Rename aborts the process).  Faulted calls
